@@ -467,6 +467,8 @@ class ReplLockManager(object):
         # whatever the (possibly lagging) local replica says, until a later acquisition succeeds
         self.__releasing = {}
         self.__requestsCounter = 0
+        # Time of the latest acquisition attempt per lock (a lost release is not repeated while one may still succeed)
+        self.__lastAttemptTime = {}
         self.__thread = threading.Thread(target=ReplLockManager._autoAcquireThread, args=(weakref.proxy(self),))
         self.__thread.start()
         while not self.__initialised.is_set():
@@ -495,6 +497,14 @@ class ReplLockManager(object):
                     continue
                 if syncObj._getLeader() is not None:
                     self.__lastProlongateTime = time.time()
+                    # A release request may have been lost (no leader, leader changed, reply never came): as long as
+                    # the lock is still held in our name although we gave it up, ask again - prolonging it would keep
+                    # it forever.  An acquisition that is younger than half the auto-unlock time may still succeed.
+                    now = time.time()
+                    for lockID in list(self.__releasing):
+                        if now - self.__lastAttemptTime.get(lockID, 0) > self.__autoUnlockTime / 2.0 and \
+                                self.__lockImpl.isAcquired(lockID, self.__selfID, now):
+                            self.__lockImpl.release(lockID, self.__selfID)
                     self.__lockImpl.prolongate(self.__selfID, time.time())
         except ReferenceError:
             pass
@@ -513,6 +523,7 @@ class ReplLockManager(object):
         :return True if acquired, False - somebody else already acquired lock
         """
         attemptTime = time.time()
+        self.__lastAttemptTime[lockID] = attemptTime
         self.__requestsCounter += 1
         attemptNum = self.__requestsCounter
         if sync:
